@@ -124,6 +124,12 @@ def run_other(c):
             type("A%d" % next(_uid), (StateMachine,), {"other": w})
         elif k == "outside":
             type("O%d" % next(_uid), (object,), {"orig": w})
+        elif k in ("alias_reuse", "outside_reuse"):
+            home = type("Home%d" % next(_uid), (StateMachine,), {"orig": w})      # legitimate first binding
+            if k == "alias_reuse":
+                type("B%d" % next(_uid), (StateMachine,), {"borrowed": home.orig})
+            else:
+                type("P%d" % next(_uid), (object,), {"orig": home.orig})
         else:
             ns = {"orig": w}
             if c["d"] != "state_first" and c["d"] != "timed_state":
